@@ -4,7 +4,8 @@ PROPS = {
                           "every type x photo-size-source kind, hostile-string crash observation (in-process + child batch)",
                 text="Every generated file id is encoded and decoded by the real code and must come back equal; every zero-run length 0..1100 in the file reference is covered "
                      "(exhaustive on that axis), all 18 types x 10 photo size sources x web/non-web are hit; 100k hostile strings per run must not panic and ids decoded from "
-                     "modern-layout hostile inputs must themselves round-trip.",
+                     "modern-layout hostile inputs must themselves round-trip. History arm: the last 8 decoded values are kept alive and re-inspected after every later call, and "
+                     "6 goroutines round-trip different ids concurrently (results of pure functions must not depend on other calls).",
                 note="Domain: canonical ids (only wire-carried fields set, DC 0..2^31-1). Ids beyond the sweep are sampled. The harness transcription of the layout is used "
                      "for witness classification and for crafting hostile inputs.",
                 watchdog={"quick": 900, "thorough": 3600}),
@@ -14,7 +15,8 @@ PROPS = {
                 text="Grid N 0..40 x page size 1..N+1 enumerated completely for 19 message-server configurations (GetHistory/Search/SearchGlobal x response kinds x offset "
                      "precedence) and 6 dialog-server configurations; every run iterates to exhaustion through the real TL codec; missing/duplicate/reordered/extra items, "
                      "iterator errors, panics and more than ceil(N/limit)+2 queries are violations. Large arm (both tiers): N 99..1000 x page sizes 1..1000 around Telegram's per-request maximum of 100, against a server honouring any limit and a server truncating limits to 100, "
-                     "plus a random sample with N and page size up to 2000. Sampled arms: start offsets, interleaved messageEmpty.",
+                     "plus a random sample with N and page size up to 2000. API arm: Total/FetchTotal before, in the middle of and after the iteration, Collect, ForEach, Count for both iterators "
+                     "(N 0..12, every page size, every response kind) with Total()==N. Sampled arms: start offsets, interleaved messageEmpty.",
                 note="The fake server's pagination semantics (core.telegram.org/api/offsets; unique descending ids and dates) are the trusted base; non-default server variants "
                      "are named in the signature. Histories with equal dates in one chat, pinned dialogs and non-monotone ids (global search across chats) are not modelled.",
                 watchdog={"quick": 900, "thorough": 3600}),
@@ -23,7 +25,8 @@ PROPS = {
                           "crash observation on arbitrary strings",
                 text="200k structured messages (1..5 upper-case words incl. words with digits, one decimal argument at every position, with/without leading zeros) must parse to "
                      "Type = words joined and Argument = number; 100k out-of-statement shapes are crash-only; 500 FloodWait calls (both kinds, bare and wrapped) are walked "
-                     "through fake time: blocked until n s + 1 s, then (true, err); cancellation gives (false, context.Canceled).",
+                     "through fake time: blocked until n s + 1 s, then (true, err); cancellation gives (false, context.Canceled). History arm: sequences mixing calls with fake clock A, fake clock B, no option (system clock) "
+                     "and concurrent A||B pairs; every timer must be created on the clock of its own call.",
                 note="Messages are sampled. The 1 s margin is the one the code documents. Real-time waits are watchdogs/settle pauses only (a late event can only be missed).",
                 watchdog={"quick": 900, "thorough": 3600}),
 }
